@@ -211,3 +211,15 @@ for _p in ("C01", "C03", "C04", "C05", "C06", "C07", "C08", "C09", "C10", "C11",
     _s = PROPS[_p]
     if "LexCorr" not in _s["corr"]:
         _s["corr"] = _s["corr"] + ["LexCorr"]
+
+# The translated field rendering (C09rs.v) reads its callees `Map::new` / `get_name`, `compute_name_hints`,
+# `compute_struct_names`, `contains_only_text`, `starts_with_xmlns` as the model functions their own
+# translations are proved equal to (C04rs.v, C14hints.v, C14rs.v, C16rs.v).  Round 11 of the seeded
+# changes (C16-m22: `create_unused_name` computes its suffix in one step) showed the hole: a check that
+# re-proves the field rendering but not its callees says nothing about an edit of a callee.  Every
+# check that regenerates the field rendering now regenerates and re-proves the callees as well.
+for _p, _s in PROPS.items():
+    _have = [x for x in (_s.get("translate") or "").split(",") if x]
+    if "render" in _have:
+        _s["translate"] = ",".join(_have + [x for x in ("element", "ident", "names", "hints") if x not in _have])
+        _s["prop_files"] = _s.get("prop_files", [_p]) + [f for f in ("C16rs", "C04rs", "C14rs", "C14hints") if f not in _s.get("prop_files", [_p])]
